@@ -129,11 +129,70 @@ func init() {
 			}
 		}
 		c.Check(direct == 0, "libs/tempfile.WriteFileAtomic never opens the target directly", w.pos(f.Pos()), "target only touched by rename", "the target file is opened/written in place")
+		// nothing destructive is ever done to the target itself (no remove/truncate/rename-away): a crash must
+		// always find either the old or the new complete file
+		destructive := 0
+		for _, call := range callInstrs(f) {
+			d, _ := describeCallee(call)
+			if d.Pkg == "os" && (d.Name == "Remove" || d.Name == "RemoveAll" || d.Name == "Truncate" || d.Name == "Rename") {
+				if a := callArgs(call); len(a) > 0 && w.expr(a[0]) == paramName(f, 0) {
+					destructive++
+				}
+			}
+		}
+		c.Check(destructive == 0, "libs/tempfile.WriteFileAtomic never removes or truncates the target", w.pos(f.Pos()), "target is only replaced by rename", "the target file is removed/truncated/renamed away before the replacement: a crash in between leaves no state file")
 		// the temp file is created exclusively in the target's directory
 		for _, call := range w.callsTo(f, "os#OpenFile") {
 			flags, _ := constInt(callArgs(call)[1])
 			const oExcl, oCreate = 0x80, 0x40
 			c.Check(flags&oExcl != 0 && flags&oCreate != 0, "libs/tempfile.WriteFileAtomic temp file is O_CREATE|O_EXCL", w.ipos(call), "exclusive create", fmt.Sprintf("open flags %#x", flags))
+		}
+	})
+
+	// ------------------------------------------------------------------ C04.R7
+	register("C04", "R7", "K1", "restart: a validator loaded with state gets exactly what the state file holds, or the process stops (missing/corrupt state never becomes empty state)", 4, func(c *Ctx) {
+		w := c.W
+		n := 0
+		for _, f := range w.FuncsInPkg("privval") {
+			var stores []FieldStore
+			for _, fs := range w.fieldStoresIn(f, "privval", "FilePV", "LastSignState") {
+				if strings.HasPrefix(w.expr(fs.Store.Val), "&pvState") || !strings.Contains(w.expr(fs.Store.Val), "complit") {
+					stores = append(stores, fs)
+				}
+			}
+			reads := w.callsTo(f, "os#ReadFile")
+			if len(stores) == 0 || len(reads) == 0 {
+				continue
+			}
+			n++
+			fk := funcKey(f)
+			for _, b := range f.Blocks {
+				ret, ok := b.Instrs[len(b.Instrs)-1].(*ssa.Return)
+				if !ok {
+					continue
+				}
+				stateRead := `os\.ReadFile\(stateFilePath\)`
+				c.guards(f, ret, fk+" :: return loaded validator", 0,
+					guardAny("state file was read (or state loading not requested)", guardRe("a", `^nil\(`+stateRead+`#1\)$`), guardRe("b", `^false\(loadState\)$`)),
+					guardAny("state file was decoded (or state loading not requested)", guardRe("a", `^nil\(.*Unmarshal\(`+stateRead+`#0, .*\)\)$`), guardRe("b", `^false\(loadState\)$`)),
+					guardRe("key file was read", `^nil\(os\.ReadFile\(keyFilePath\)#1\)$`))
+			}
+			// callers that promise loaded state pass loadState=true
+			for _, cs := range w.callersOf(f) {
+				if strings.Contains(cs.Parent().Name(), "EmptyState") {
+					continue
+				}
+				a := cs.Common().Args
+				v, isC := boolConst(a[len(a)-1])
+				c.Check(isC && v, funcKey(cs.Parent())+" :: loads the sign state", w.ipos(cs), "loadState=true", "a loader that should restore the last sign state does not request it")
+			}
+		}
+		if n == 0 {
+			c.Undecided("sign-state loader", "-", "no function in privval reads files and fills FilePV.LastSignState")
+		}
+		// the node and the signer commands load the validator with its state
+		for _, s := range w.allCallsTo("privval#LoadFilePVEmptyState") {
+			c.Check(strings.HasPrefix(relPkg(s.Fn), "cmd/") || relPkg(s.Fn) == "privval", funcKey(s.Fn)+" :: LoadFilePVEmptyState caller", w.ipos(s.Instr), "only operator commands load a validator without its sign state", "a validator is loaded WITHOUT its last sign state outside operator commands")
 		}
 	})
 
